@@ -618,6 +618,27 @@ def m_chars_into_iter(interp, path, args, ret_ty, callee):
     return args[0]
 
 
+@model(r"<impl str>::(trim_start_matches|trim_end_matches)::<char>$",
+       "strip every leading / trailing occurrence of the (ASCII) char: forks on how many there are")
+def m_str_trim_matches(interp, path, args, ret_ty, callee):
+    a = _symstr(interp, path, args[0])
+    c = args[1].term
+    start = "trim_start_matches" in canon(callee)
+    bs = a.bytes if start else list(reversed(a.bytes))
+    conds = []
+    for k in range(len(bs) + 1):
+        # exactly k leading matches
+        cs = [bs[i] == c for i in range(k)]
+        if k < len(bs):
+            cs.append(bs[k] != c)
+        conds.append((z3.And(cs) if cs else z3.BoolVal(True), k))
+    outs = []
+    for p, k in interp.fork(path, conds):
+        rest = bs[k:]
+        outs.append(Outcome(p, "ret", StrSymV(rest if start else list(reversed(rest)))))
+    return outs
+
+
 @model(r"<impl str>::as_bytes$", "the bytes of the string (entry-list slice)")
 def m_str_as_bytes(interp, path, args, ret_ty, callee):
     from .interp import _ConstRef
@@ -1373,6 +1394,16 @@ def m_map_iter_identity(interp, path, args, ret_ty, callee):
     return args[0]
 
 
+@model(r"^<impl ([iu](8|16|32|64|128|size))>::(saturating_add|saturating_sub|saturating_add_unsigned|saturating_sub_unsigned)$",
+       "clamped to the type's range")
+def m_int_saturating(interp, path, args, ret_ty, callee):
+    m = re.match(r"^<impl (\w+)>::(\w+)$", canon(callee))
+    ty, op = m.group(1), m.group(2)
+    lo, hi = int_range(ty)
+    v = args[0].term + args[1].term if "add" in op else args[0].term - args[1].term
+    return IntV(z3.If(v > hi, hi, z3.If(v < lo, lo, v)), ty)
+
+
 @model(r"^<([iu](8|16|32|64|128|size)) as Default>::default$", "0")
 def m_int_default(interp, path, args, ret_ty, callee):
     return IntV(0, re.match(r"^<(\w+) as", canon(callee)).group(1))
@@ -1468,6 +1499,31 @@ def m_values_collect(interp, path, args, ret_ty, callee):
         pres = m.fields[i].fields[2].term
         for p2, tag in interp.fork(p, [(pres, "in"), (z3.Not(pres), "out")]):
             work.append((p2, i + 1, acc + [m.fields[i].fields[1]] if tag == "in" else acc))
+    return outs
+
+
+@model(r"^<impl \[.*\]>::(get|get_mut)::<usize>$", "element by index (forks over the positions when the index is symbolic)")
+def m_slice_get(interp, path, args, ret_ty, callee):
+    from .interp import _ConstRef
+    r = args[0]
+    v = deref(interp, path, r)
+    if v.kind != "struct":
+        raise Refuse("slice get on %r" % (v,))
+    idx = args[1].term
+    n = len(v.fields)
+    conds = [(idx == i, i) for i in range(n)] + [(z3.Or(idx < 0, idx >= n), None)]
+    outs = []
+    for p, i in interp.fork(path, conds):
+        if i is None:
+            outs.append(Outcome(p, "ret", EnumV(ret_ty, 0, {0: []})))
+            continue
+        e = v.fields[i]
+        if isinstance(r, _ConstRef) or hasattr(r, "target"):
+            ref = _ConstRef("&" + getattr(e, "ty", "T"), e)
+        else:
+            ref = RefV(("&mut " if "get_mut" in canon(callee) else "&") + getattr(e, "ty", "T"), r.fid, r.local,
+                       tuple(r.projs) + (("field", i),))
+        outs.append(Outcome(p, "ret", EnumV(ret_ty, 1, {1: [ref]})))
     return outs
 
 
@@ -1800,6 +1856,8 @@ def m_set_iter_next(interp, path, args, ret_ty, callee):
 @model(r"^(IndexSet|BTreeSet|HashSet)::<.*>::difference(::<.*>)?$", "lazy set difference (elements of a not in b)")
 def m_set_difference(interp, path, args, ret_ty, callee):
     a, b = deref(interp, path, args[0]), deref(interp, path, args[1])
+    if b.kind == "struct" and b.ty.startswith("SymMap") and all(z3.is_false(s_.fields[2].term) for s_ in b.fields):
+        b = StructV("IndexSet<empty>", [])          # a set created empty by the code and never filled
     if not (_is_entry_set(a) and _is_entry_set(b)):
         raise Refuse("difference of %r and %r" % (a, b))
     return StructV("SetDiffIter", [StructV("rest", list(a.fields)), b])
@@ -2066,7 +2124,7 @@ def m_vec_into_iter(interp, path, args, ret_ty, callee):
     return StructV("VecIntoIter", list(v.fields))
 
 
-@model(r"^<Vec<.*> as (__)?Deref>::deref$", "a vector viewed as a slice: same elements (entry-list model)")
+@model(r"^<Vec<.*> as (__)?Deref(Mut)?>::deref(_mut)?$", "a vector viewed as a slice: same elements (entry-list model)")
 def m_vec_deref(interp, path, args, ret_ty, callee):
     from .interp import _ConstRef
     r = args[0]
